@@ -25,7 +25,31 @@ pub struct RecCfg {
     pub reader_init_fails: bool,
     pub rset_fail_at: Option<u64>,
     pub rec_fail_at: Option<u64>,
+    /// the underlying source fails (io::ErrorKind::Other) at its j-th `read` call (0-based)
+    pub io_fail_at: Option<u64>,
     pub seed: u64,
+}
+
+/// an in-memory source whose j-th read call fails
+pub struct FailRead {
+    inner: Cursor<Vec<u8>>,
+    calls: u64,
+    fail_at: Option<u64>,
+}
+impl FailRead {
+    pub fn new(data: Vec<u8>, fail_at: Option<u64>) -> FailRead {
+        FailRead { inner: Cursor::new(data), calls: 0, fail_at }
+    }
+}
+impl std::io::Read for FailRead {
+    fn read(&mut self, buf: &mut [u8]) -> std::io::Result<usize> {
+        let c = self.calls;
+        self.calls += 1;
+        if self.fail_at == Some(c) {
+            return Err(std::io::Error::new(std::io::ErrorKind::Other, "injected read failure"));
+        }
+        self.inner.read(buf)
+    }
 }
 
 #[derive(Debug)]
@@ -92,7 +116,7 @@ pub fn rec_input(cfg: &RecCfg) -> (Vec<common::Rec>, Vec<u8>) {
 pub fn sequential(cfg: &RecCfg, text: &[u8]) -> (u64, Option<String>) {
     let mut n = 0u64;
     if cfg.fastq {
-        let mut r = seq_io::fastq::Reader::with_capacity(Cursor::new(text.to_vec()), cfg.cap);
+        let mut r = seq_io::fastq::Reader::with_capacity(FailRead::new(text.to_vec(), cfg.io_fail_at), cfg.cap);
         loop {
             match r.next() {
                 None => return (n, None),
@@ -101,7 +125,7 @@ pub fn sequential(cfg: &RecCfg, text: &[u8]) -> (u64, Option<String>) {
             }
         }
     } else {
-        let mut r = seq_io::fasta::Reader::with_capacity(Cursor::new(text.to_vec()), cfg.cap);
+        let mut r = seq_io::fasta::Reader::with_capacity(FailRead::new(text.to_vec(), cfg.io_fail_at), cfg.cap);
         loop {
             match r.next() {
                 None => return (n, None),
@@ -130,6 +154,7 @@ pub fn rec_cfg_json(cfg: &RecCfg, o: &mut common::JObj) {
     o.b("reader_init_fails", cfg.reader_init_fails);
     o.raw("rset_fail_at", common::jopt_u(cfg.rset_fail_at));
     o.raw("rec_fail_at", common::jopt_u(cfg.rec_fail_at));
+    o.raw("io_fail_at", common::jopt_u(cfg.io_fail_at));
     o.raw("seed", format!("\"{}\"", cfg.seed));
 }
 
@@ -141,7 +166,7 @@ macro_rules! rec_case_body {
         let n_rec = AtomicU64::new(0);
         let count = std::cell::Cell::new(0usize);
         let stop = $cfg.stop_after;
-        let reader = seq_io::$fmt::Reader::with_capacity(Cursor::new($text.clone()), $cfg.cap);
+        let reader = seq_io::$fmt::Reader::with_capacity(FailRead::new($text.clone(), $cfg.io_fail_at), $cfg.cap);
         let ret: String = if !$cfg.init {
             let r = par::$plain(
                 reader,
